@@ -269,12 +269,12 @@ theorem spec_maybeParseAssert (add : Bool) (st : PState toks) :
       refine Ok.bind (hpe st3) ?_
       intro msg st4 h4
       have f4 := h4.fwd
-      refine Ok.pure ⟨by nums, h1.isStart, ⟨?_, ?_, ?_⟩, by nums, by nums⟩
+      refine Ok.pure ⟨by nums, h1.isStart, ⟨?_, ?_, ?_, rfl⟩, by nums, by nums⟩
       · exact surround_ok h1.isStart h4.isStop (by nums) (by nums) (by nums)
       · exact h2.wf (by nums) (by nums)
       · exact h4.wf (by nums) (by nums)
     | none =>
-      refine Ok.pure ⟨by nums, h1.isStart, ⟨?_, ?_, trivial⟩, by nums, by nums⟩
+      refine Ok.pure ⟨by nums, h1.isStart, ⟨?_, ?_, trivial, rfl⟩, by nums, by nums⟩
       · exact surround_ok h1.isStart h2.isStop (by nums) (by nums) (by nums)
       · exact h2.wf (by nums) (by nums)
 
